@@ -306,7 +306,8 @@ def run_sizes(case, res, cfg, op, w, req, it):
             n += 1
             cls, ok = classify(out, op)
             res.outcome(cls)
-            if ok and vname == "sealed" and len(dg) <= 4080 and op == "get" and not (out.kind == "ok" and isinstance(out.value, bytes) and len(out.value) == plen):
+            # (C02's clause, not C01's: a well-formed reply that fits the receive buffer reaches the caller; C02 runs this sweep with judge_loss)
+            if case.get("judge_loss") and ok and vname == "sealed" and len(dg) <= 4080 and op == "get" and not (out.kind == "ok" and isinstance(out.value, bytes) and out.value == bytes([0x41 + plen % 26]) * plen):
                 cls, ok = "lost:" + cls, False
             if not ok:
                 res.violation(
